@@ -766,6 +766,16 @@ def check_sentence_split(ctx: Ctx) -> None:
     rx = Regex(rc.pattern, rc.flags)
     ctx.ob("R-SENT-split", f"{ssr}:SENTENCE_END_RE is anchored at the end of the word", rx.end_anchored,
            f"a sentence end is terminal punctuation at the *end* of a word; pattern {rc.pattern!r}", "sentence_split_regex.py")
+    # the shapes the heuristic is documented to recognise ("two letters or more, with the last letter lowercase, followed by a
+    # period, exclamation point, question mark; a final or preceding parenthesis or quote is allowed") - constant samples
+    auto = rx.glushkov()
+    yes = ["ab.", "ab?", "ab!", 'ab."', "ab.'", "ab.)", "ab.\u2019", "ab.\u201d", 'ab".', "ab'.", "ab).", "ab\u2019.", "ab\u201d.", "Word.", "ab. "]
+    no = ["a.", "AB.", "ab", "ab,", "ab:", "3."]
+    miss = [w for w in yes if not auto.accepts(w)]
+    extra = [w for w in no if auto.accepts(w)]
+    ctx.ob("R-SENT-split", f"{ssr}:SENTENCE_END_RE recognises the documented sentence ends", not miss and not extra,
+           "a word of two or more letters ending in a lowercase letter and . ? or !, with an optional closing quote or parenthesis before or "
+           f"after the punctuation, ends a sentence; not recognised: {miss}; wrongly recognised: {extra}", "sentence_split_regex.py")
     h = repo.func(f"{ssr}:heuristic_end_of_sentence")
     uses = any(isinstance(x, ast.Attribute) and x.attr == "search" and norm(x.value) == "SENTENCE_END_RE" for x in ast.walk(h.node))
     ctx.ob("R-SENT-split", f"{h.qual} :: uses SENTENCE_END_RE", uses, "the default heuristic is the regex test", where(h, h.node))
